@@ -124,6 +124,12 @@ func addCustomAnalysis(im *mapping.IndexMappingImpl, analyzers, parsers []string
 			"type": "flexiblego", "layouts": []interface{}{"2006/01/02"}}); err != nil {
 			return err
 		}
+		// an ISO-style parser whose layouts need translating (letters, quoted literals): the
+		// recorded configuration must stay what the user wrote, so that it parses the same again
+		if err := im.AddCustomDateTimeParser("ciso", map[string]interface{}{
+			"type": "isostyle", "layouts": []interface{}{"yyyy-MM-dd'T'HH:mm:ss", "dd MMM yyyy", "HH'h'mm"}}); err != nil {
+			return err
+		}
 	}
 	return nil
 }
@@ -184,6 +190,11 @@ func buildDMShared(d *mDM, pool fmPool) *mapping.DocumentMapping {
 	}
 	for _, p := range d.Props {
 		dm.AddSubDocumentMapping(p.Name, buildDMShared(p.DM, pool))
+	}
+	if len(d.Fields) == 0 && pool != nil {
+		// "no fields" written as an empty list instead of nothing (a mapping editor's
+		// `"fields": []`): means the same, before and after the round trip
+		dm.Fields = []*mapping.FieldMapping{}
 	}
 	return dm
 }
